@@ -231,6 +231,65 @@ def pushpop_helpers(m):
     return helpers, eff, byname, calls
 
 
+class PairHooks(A.Hooks):
+    """A recording context: context.push / context.pop / context.append (also reached as values: attrgetter('push')(context)) are
+    counted per path; createElement gives a fresh node."""
+    def __init__(self, model, cls):
+        self.model, self.cls = model, cls
+
+    def keep(self, ev):
+        return False
+
+    def call(self, interp, node, fname, args, kwargs, state):
+        last = fname.rsplit('.', 1)[-1]
+        if fname in ('context.push', 'context.append', 'context.pop') or (last in ('push', 'append', 'pop') and fname.endswith('context.' + last)):
+            net, lo = state.env.get('__pair', (0, 0))
+            net += -1 if last == 'pop' else 1
+            state.env['__pair'] = (net, min(lo, net))
+            return A.NONE
+        if last == 'createElement':
+            k = state.env.get('__made', 0)
+            state.env['__made'] = k + 1
+            return A.Obj('element%d' % k, {'macroMode': 0})
+        if re.match(r'(\w+log|log|status)\.\w+$', fname):
+            return A.NONE
+        return None
+
+
+def semantic_pairing(m, fn):
+    """(net, lowest) of context pushes and pops per path of `fn`, interpreted with a recording context; None when not determined."""
+    import itertools
+    flags = []
+    if fn.cls is not None:
+        for k in m.mro(fn.cls):
+            if isinstance(k, M.ClassInfo):
+                for nm in k.assigns:
+                    if isinstance(m.class_const(k, nm), bool) and nm not in flags and any(
+                            isinstance(x, ast.Attribute) and x.attr == nm for x in ast.walk(fn.node)):
+                        flags.append(nm)          # a switch of the class that this function consults: both settings are interpreted
+    result = set()
+    for combo in itertools.product((False, True), repeat=min(len(flags), 3)):
+        ctx = A.Obj('context', {'push': A.Sym('extfunc:context.push', truthy=True), 'pop': A.Sym('extfunc:context.pop', truthy=True),
+                                'append': A.Sym('extfunc:context.append', truthy=True)})
+        doc = A.Obj('document', {'context': ctx})
+        me = A.Obj('macro', {'ownerDocument': doc}, cls=fn.cls) if fn.cls is not None else None
+        h = PairHooks(m, fn.cls)
+        h.should_inline = A.private_only
+        it = A.Interp(model=m, scope=fn, hooks=h, max_iter=2, exc_edges=False, inline=4, heap=True, precise_exc=False, max_states=4000)
+        env = {'tex': A.Sym('tex', truthy=True)}
+        if me is not None:
+            env['self'] = me
+            me.attrs.update(dict(zip(flags, combo)))
+        try:
+            outs = it.run_function(fn, env=env)
+        except AnalysisError:
+            return None
+        if it.imprecise:
+            return None
+        result |= {s2.env.get('__pair', (0, 0)) for kind, s2, v in outs if kind in ('return', 'fall')}
+    return result
+
+
 def r41(chk, m):
     R = chk.rule('R4.1', 'context push/pop pairing table: only tabled functions (and private helpers reached only from them, '
                  'whose effect is folded into the caller) push/pop; at every normal exit the net effect and the lowest '
@@ -320,6 +379,11 @@ def r41(chk, m):
         extra = sorted(set(normal) - allowed)
         missing = sorted(allowed - set(normal))
         if (extra or missing) and indirection(name):
+            sem = semantic_pairing(m, fn)
+            A.IMPRECISION[:] = []
+            if sem is not None and sem == allowed:
+                chk.ok(R, name, '%s (interpreted with a recording context: the callees are computed): %s' % (sorted(sem), why))
+                continue
             chk.undecided(R, name, '%s calls through computed callees (%s): its effect on the context stack is not determined by the structural rule'
                           % (name, '; '.join(indirection(name)[:3])), chk.where(fn))
             continue
@@ -331,6 +395,11 @@ def r41(chk, m):
     missing = sorted(set(PAIRING) - eff)
     for name in missing:
         if indirection(name):
+            sem = semantic_pairing(m, byname[name]) if name in byname else None
+            A.IMPRECISION[:] = []
+            if sem is not None and sem == PAIRING[name][0]:
+                chk.ok(R, name, '%s (interpreted with a recording context: the callees are computed): %s' % (sorted(sem), PAIRING[name][1]))
+                continue
             chk.undecided(R, name, '%s calls through computed callees (%s): whether it still opens/closes its group is not determined by the '
                           'structural rule' % (name, '; '.join(indirection(name)[:3])), name)
             continue
